@@ -248,7 +248,25 @@ def coq_build(targets, timeout=1500):
         coq_makefile()
         cmd = ["timeout", str(timeout), "make", f"-j{NCPU}", "-k", *targets]
         p = subprocess.run(cmd, cwd=COQ, stdout=subprocess.PIPE, stderr=subprocess.STDOUT, text=True)
+        if p.returncode != 0:
+            # a file that failed keeps its OLD .vo, compiled against the old Gen/*.vo: remove what is out of date so that
+            # nothing loads it ("inconsistent assumptions"); the case files of a check then import only what still builds
+            q = subprocess.run(["make", "-k", "-n", *targets], cwd=COQ, stdout=subprocess.PIPE, stderr=subprocess.STDOUT, text=True)
+            for m in re.finditer(r"COQC\s+(\S+\.v)\b|coqc\b.*?\s(\S+\.v)\b", q.stdout):
+                v = m.group(1) or m.group(2)
+                vo = os.path.join(COQ, v[:-2] + ".vo")
+                if os.path.exists(vo):
+                    os.unlink(vo)
         return p.returncode == 0, p.stdout
+
+
+def spec_problem(r, errs, bad):
+    """Spec-vs-interpreter validation: True when the spec really disagrees (machinery error).  When the case files could
+    not even be evaluated because the development did not build (a broken obligation is already reported), skip."""
+    if errs and not getattr(r, "build_ok", True):
+        r.note("spec validation skipped: the Coq development did not build, case files cannot be evaluated")
+        return False
+    return bool(errs or bad)
 
 
 def workdir(tag):
